@@ -179,6 +179,7 @@ class Interp:
         self.assume: dict = {}  # SymBool key -> bool
         self.module_envs: dict[str, Env] = {}
         self.ext_handlers: dict[str, object] = {}
+        self.ext_overrides: dict[str, object] = {}
         self.attr_hooks: list = []  # fn(interp, obj, name) -> value | NotImplemented
         self.call_hooks: list = []  # fn(interp, callee, args, kwargs) -> value | NotImplemented
         self.ext_fallback = None  # fn(interp, name, args, kwargs) -> value | NotImplemented
@@ -417,6 +418,11 @@ class Interp:
 
     def call_ext(self, name: str, args: list, kwargs: dict):
         cname = canon_ext(name)
+        h = self.ext_overrides.get(cname)
+        if h is not None:  # rule-supplied model that takes precedence over the array domains' own
+            r = h(self, args, kwargs)
+            if r is not NotImplemented:
+                return r
         for v in list(args) + list(kwargs.values()):
             cands = v if isinstance(v, (list, tuple)) else [v]
             for c in cands:
@@ -1757,6 +1763,13 @@ def _abs(it, a, k):
     return apply_fn("abs", v)
 
 
+def _unwrap0d(v):
+    """int()/float() of a 0-d array is its single element"""
+    if isinstance(v, AbsVal) and getattr(v, "is_array", False) and hasattr(v, "data") and len(v.data) == 1 and not getattr(v, "sp", ()) and not getattr(v, "shape", ()):
+        return v.data[0]
+    return v
+
+
 @_b("round")
 def _round(it, a, k):
     v = a[0]
@@ -1767,7 +1780,7 @@ def _round(it, a, k):
 
 @_b("int")
 def _int(it, a, k):
-    v = a[0] if a else 0
+    v = _unwrap0d(a[0]) if a else 0
     if isinstance(v, (int, float, Fraction, str, bool)):
         return int(v)
     if isinstance(v, Rat):
@@ -1779,7 +1792,7 @@ def _int(it, a, k):
 
 @_b("float")
 def _float(it, a, k):
-    v = a[0] if a else 0
+    v = _unwrap0d(a[0]) if a else 0
     if isinstance(v, str):
         return num(float(v))
     if isinstance(v, (int, float, Fraction, bool)):
